@@ -75,8 +75,26 @@ def corpus_cases(chk, tool, asan, work, stats):
     return n
 
 
+WRAP_KEY = 'F-C09-wrapped-run-count-long-loop'
+
+
+def wrapped_count_class(m, why):
+    """exactly the open finding: an integer field set to >= 0xFFFFFFFE, the loader neither crashes nor reports a sanitizer error but
+    does not stop within the time limit, or asks for an unbounded amount of memory"""
+    return (len(m) > 2 and m[2].startswith('integer field') and any(x in m[2] for x in (': 0xFFFFFFFF', ': 0xFFFFFFFE')) and
+            (why.startswith('hang') or why.startswith('unbounded allocation')))
+
+
 def report_bad(chk, counter, tag, spec, conf, base, bad, cmd, mode, san):
     for m, why, rc, out in bad:
+        if wrapped_count_class(m, why):
+            damaged = L.apply_mut(base, m)
+            chk.violation('wrapcount_%s' % spec['name'], 'shape %s, %s: %s' % (spec['name'], m[2], why),
+                          dict(shape=spec, conf=conf, mutant=L.describe(m), content_hex=damaged.hex(), args=(['-C', 'content'] if mode == 'noconf' else ['-c', 'conf'] + (cmd or [])),
+                               noflags=(mode == 'noconf'), sanitize=san, rc=rc), finding_key=WRAP_KEY)
+            chk.cov.setdefault('known_finding_wrapped_count_cases', 0)
+            chk.cov['known_finding_wrapped_count_cases'] += 1
+            continue
         if counter[0] >= MAX_REPORT:
             return
         counter[0] += 1
@@ -125,6 +143,12 @@ def damaged_sweeps(chk, tool, asan, model_exe, work, tier, stats):
         except Exception as e:      # the independent decoder does not follow this file: say so, do not hide it
             bnd, nfields = [], 0
             chk.notes.append('string-field walk failed on shape %s: %r' % (spec['name'], e))
+        try:
+            intm = F.int_field_mutants(base)
+            nints = len(F.int_fields(base))
+        except Exception as e:
+            intm, nints = [], 0
+            chk.notes.append('integer-field walk failed on shape %s: %r' % (spec['name'], e))
         off = rng.randrange(1 << 30)
 
         def sample(ms, k):
@@ -151,6 +175,14 @@ def damaged_sweeps(chk, tool, asan, model_exe, work, tier, stats):
             stats['renamed_disk_found_by_uuid'] = stats.get('renamed_disk_found_by_uuid', 0) + 1
         plan = []     # (binary, sanitize, cmd, mode, mutants, tag)
         plan.append((tool, False, ro + [prim], 'conf', exq, prim))
+        # structure-aware multi-byte damage: every packed-integer field (indexes, positions, run counts, sizes, times, flags, ...) set to
+        # 0, 1, 0x7FFFFFFF, 0xFFFFFFFE, 0xFFFFFFFF, 2^32(+1) in five bytes, 64-bit maxima; spliced and overwritten in place.  Complete
+        # in the quick tier on the files that hold a file in several block runs / holes, a quarter of the fields elsewhere.
+        intq = intm if (not quick or 'file_in_several_block_runs' in feats or spec['name'] == 'v3_3d_2p_split') else sample(intm, 4)
+        plan.append((asan, True, ro + [prim], 'conf', intq, 'asan_intfield_' + prim))
+        if not quick:
+            plan.append((asan, True, None, 'noconf', intm, 'asan_intfield_noconf'))
+            plan.append((asan, True, ro + ['sync'], 'conf', intm, 'asan_intfield_sync'))
         # boundary-aimed: string length prefixes around the buffer capacities (UUID_MAX, PATH_MAX), 2^31, 2^32-1, over-long varints
         plan.append((asan, True, ro + [prim], 'conf', sample(bnd, 3) if big else bnd, 'asan_strlen_' + prim))
         plan.append((asan, True, None, 'noconf', sample(bnd, 6 if big else 2) if quick else bnd, 'asan_strlen_noconf'))
@@ -192,15 +224,15 @@ def damaged_sweeps(chk, tool, asan, model_exe, work, tier, stats):
         shape_runs = 0
         t0 = time.time()
         for binary, san, cmd, mode, ms, tag in plan:
-            bad, n, cl = sw.run(binary, base, ms, cmd, sanitize=san, mode=mode)
+            bad, n, cl = sw.run(binary, base, ms, cmd, sanitize=san, mode=mode, timeout=2 if ('intfield' in tag and quick) else 10 if 'intfield' in tag else 60)
             total_runs += n
             shape_runs += n
             merge(classes, cl)
             report_bad(chk, counter, tag, spec, conf, base, bad, cmd, mode, san)
-        distinct += len(ex) + len(by) + len(rnd) + len(bnd)
+        distinct += len(ex) + len(by) + len(rnd) + len(bnd) + len(intm)
         # model <-> C on the loader: `snapraid -C` and the extracted CodecModel.decode (no configuration) on the valid file and on
         # every mutant: accept/reject must agree (else MODEL-DRIFT); the reject kind (end of file / other) is compared and counted
-        allm = (sample(exq, 4) if light else sample(exq, 2) if quick else exq) + (sample(by, 24 if big else 3) if quick else by) + rnd + (sample(bnd, 6 if big else 2) if quick else bnd)
+        allm = (sample(exq, 4) if light else sample(exq, 2) if quick else exq) + (sample(by, 24 if big else 3) if quick else by) + rnd + (sample(bnd, 6 if big else 2) if quick else bnd) + ([m for m in sample(intq, 4) if ': 0xFFFFFFF' not in m[2]] if quick else intm)
         bad, n, cl, per = sw.run(tool, base, allm, None, mode='noconf', want=True)
         total_runs += n
         shape_runs += n
@@ -235,7 +267,7 @@ def damaged_sweeps(chk, tool, asan, model_exe, work, tier, stats):
             chk.violation('modified_' + spec['name'], 'commands refused for a damaged content file nevertheless modified the array %s: %s' % (spec['name'], '; '.join(d[:4])),
                           dict(shape=spec, conf=conf, diff=d))
         per_shape.append(dict(shape=spec['name'], bytes=len(base), version=base[7:8].decode(), truncations=len(base), single_bits=8 * len(base),
-                              byte_substitutions=len(by), random_damage=len(rnd), features=feats, exhaustive_in_this_tier=(exq is ex), string_fields=nfields, string_length_mutants=len(bnd), runs=shape_runs, wall_s=round(time.time() - t0, 1)))
+                              byte_substitutions=len(by), random_damage=len(rnd), features=feats, exhaustive_in_this_tier=(exq is ex), string_fields=nfields, integer_fields=nints, integer_field_mutants=len(intm), integer_field_mutants_run=len(intq), string_length_mutants=len(bnd), runs=shape_runs, wall_s=round(time.time() - t0, 1)))
         if si == 1:
             total_runs += two_copies(chk, tool, root, spec, base, sw, sample(ex, 40 if quick else 4), stats, counter)
         if len(chk.cov['samples']) < 8:
